@@ -8,7 +8,8 @@ from fractions import Fraction
 ID = "C08"
 TITLE = "random sampling from a specification is exactly uniform"
 COQ_PROPS = "Props/C08.v"
-COQ_RUN = ("Count.SampleRun", "run_c08")
+COQ_RUN = ("Count.ParseTreesSampleRun", "run_c08d")   # = Count.SampleRun run_c08 + the command (8 classes descs) that
+#                                                        DECIDES describes / rank / closed (run_c08d_extends)
 GEN_TARGETS = ["compositions",
                # CartesianProduct.reliance_profile / _valid_compositions (Count/GenBridgeValidComps.v)
                "product_reliance_profile", "product_valid_compositions", "product_min_sizes", "product_max_sizes"]
@@ -110,7 +111,13 @@ LEVEL_TEXT = (
     "`pdescribes` (the two descriptors describe the same rules; atoms have one object of the minimum size and values; on "
     "tuples of the children's arities the C07 parameter maps are the dict_sem of the dictionaries), the sampler returns "
     "EVERY OBJECT of the root with that size (and parameters) with probability exactly 1/count; C08_objects_support: it "
-    "returns nothing that is not the object of a well-formed tree of the root. Examples: 'ab' as an object has probability "
+    "returns nothing that is not the object of a well-formed tree of the root. DECIDED per case (C08_describes_decided, "
+    "C08_uniform_objects_decided): for every case built from a real specification WITHOUT parameters (kind words, about "
+    "20% of the cases) the harness also builds the C07 descriptors of the same specification (c07.py _rule_desc, same "
+    "labels) and the extracted run_c08d decides `describes` (kinds, children lists, atom sizes), the rank certificate and "
+    "`closed` on the two descriptor lists; the harness recomputes the three verdicts and extra_checks counts the covered "
+    "cases (all of them on seeds 0-2). For the cases WITH parameters (kind stats) `pdescribes` is evaluated by no run. "
+    "Examples: 'ab' as an object has probability "
     "1/4 among the words of length 2 and 1/2 among those with one a (by the theorem and by vm_compute)."
 )
 LEVEL_NOTE = (
@@ -163,7 +170,10 @@ ASSUMPTIONS = [
     "words/stats cases only; `pumps`/`genuine` of C08_uniform_true_counts are checked nowhere in C08)",
     "C08_uniform_objects(_params): the hypotheses of C07_objects_are_parse_trees (node_ok = bijection contracts of the "
     "forward/backward maps, verified classes are atoms or empty, closed, rank certificate) and describes/pdescribes; "
-    "decidable equality of objects",
+    "decidable equality of objects. Of these, `describes`, `closed` and the existence of a rank certificate are decided on "
+    "every words case by run_c08d and by the harness (compared; extra_checks `covered_by_theorem C08_uniform_objects`); "
+    "node_ok is a hypothesis on the strategies' maps; `pdescribes` (stats cases: also the parameter maps agree on all "
+    "tuples, not decidable from finite data as stated) is an UNEVALUATED hypothesis",
     "C08_uniform: no extra parameters, rules are atoms / disjoint unions (incl. equivalence rules and paths) / Cartesian "
     "products with one object per parse tree",
     "C08_uniform_params: well-formed dictionaries, every child parameter determined, fixed_honest (excludes the open finding); "
@@ -890,6 +900,41 @@ def run_real_item(spec, c, n, params, item):
 
 
 # ------------------------------------------------------------------ encoding
+# ------------------------------------------------------------------ hypotheses of C08_uniform_objects, decided
+def c07_descs(spec):
+    """the C07 descriptors (harness/props/c07.py _rule_desc, imported - not copied) of THIS specification under the
+    labels of describe_words; forms tabulated to size 0 only (the deciders read kinds, children, minimum / maximum
+    sizes and atoms).  None when c07.py cannot describe the specification."""
+    from harness.props import c07
+
+    try:
+        return c07.descriptors(c07.world_of_spec(spec, order=spec_classes(spec), mutate=False), 0)
+    except Exception:  # pylint: disable=broad-except
+        return None
+
+
+def describes_verdict(cds, descs):
+    """[describes_ok, rank_ok, closed_ok]: an independent computation of what Count/ParseTreesSampleDeciders.v
+    describesb and Count/ParseTreesDeciders.v rankb / closedb decide on the C08 classes `cds` and the C07 descriptors
+    `descs` of one specification (the extracted run answers the command (8 cds descs) with it; compared by the core)"""
+    from harness.props import c07
+
+    if descs is None:
+        return None
+    ok = True
+    for c in range(max(len(cds), len(descs))):
+        k = cds[c] if c < len(cds) else [K_EMPTY, 0, 0, []]
+        d = descs[c] if c < len(descs) else None
+        kind = {0: K_UNION, 1: K_PRODUCT, 3: K_ATOM}.get(d[0], K_EMPTY) if d else K_EMPTY
+        kids = list(d[1]) if d and d[0] in (0, 1) else []
+        ok = ok and k[0] == kind and list(k[3]) == kids
+        if k[0] == K_ATOM and d and d[0] == 3:
+            ok = ok and d[1] == k[1]
+    shapes = [[0, d[1]] if d[0] == 0 else [1, d[1], d[2], d[3]] if d[0] == 1 else [2] for d in descs]
+    rv = c07.rank_verdict(shapes)
+    return [int(ok), rv[0], rv[1]]
+
+
 _ENC = {}
 
 
@@ -925,6 +970,9 @@ def encode(case):
             cmds.append([4, desc, root, n, _fuel(desc, n)])
         for n, ds in case["draws"] + [[case["N"], []]]:
             cmds.append([3, desc, root, n, _fuel(desc, n), [ds]])
+        descs7 = c07_descs(spec)
+        if descs7 is not None:
+            cmds.append([8, desc[0], descs7])      # appended: the verdict [describes_ok, rank_ok, closed_ok]
         enc = [9, cmds]
     else:
         items, _ = stat_items(spec, case["N"])
@@ -1378,8 +1426,12 @@ def impl_spec(case):
             out.append(real)
         if paths:
             obs["tags"].add("path-rule")
+    verdict = describes_verdict(describe_words(spec, 0)[0][0], c07_descs(spec)) if k == "words" else None
+    if verdict is not None:
+        out.append(verdict)
     # ALL problems of the case are handed to the oracle (it reports the first one the known finding does not explain)
-    return {"out": out, "problems": obs["problems"][:200], "tags": sorted(obs["tags"]), "rules": len(classes)}
+    return {"out": out, "problems": obs["problems"][:200], "tags": sorted(obs["tags"]), "rules": len(classes),
+            "verdict": verdict}
 
 
 def impl(case):
@@ -1513,6 +1565,23 @@ def key(case):
     return json.dumps(case, sort_keys=True)
 
 
+MIN_COVERED = 0.95     # of the cases built from a real parameter-free specification; measured: see extra_checks
+
+
+def _coverage_tags(case, res):
+    if "nospec" in res or "out" not in res:
+        return []
+    if case["kind"] != "words":
+        return ["thm:C08_uniform_objects_params:not_covered(pdescribes is evaluated by no run)"]
+    v = res.get("verdict")
+    if v is None:
+        return ["thm:C08_uniform_objects:not_covered(no C07 descriptor of this specification)"]
+    missing = [h for h, b in zip(("describes", "rank certificate", "closed"), v) if not b]
+    if missing:
+        return ["thm:C08_uniform_objects:not_covered(%s)" % " + ".join(missing)]
+    return ["thm:C08_uniform_objects:covered"]
+
+
 def classify(case, res):
     tags = ["kind:" + case["kind"]]
     if case["kind"] == "rules":
@@ -1524,6 +1593,7 @@ def classify(case, res):
             tags.append("no-specification")
         tags.append("alphabet%d" % len(case["cls"][2]))
         tags.append("N%d" % case["N"])
+        tags.extend(_coverage_tags(case, res))
     tags.extend("tag:" + t for t in res.get("tags", []))
     return tags
 
@@ -1664,7 +1734,25 @@ def big_sample_check(seed):
 def extra_checks(ctx):
     from harness import gen_selftest
 
-    return [big_sample_check(ctx.seed), gen_selftest.rejects(_BAD_SNIPPETS)] + gen_selftest.checks(
+    n_all = n_words = n_stats = k = 0
+    for (res, _why, _nt), case in zip(ctx.impl_res, ctx.cases):
+        n_all += 1
+        if case["kind"] == "rules" or "nospec" in res or "out" not in res:
+            continue
+        if case["kind"] != "words":
+            n_stats += 1
+            continue
+        n_words += 1
+        k += "thm:C08_uniform_objects:covered" in _coverage_tags(case, res)
+    cov = [("covered_by_theorem C08_uniform_objects: %d of %d cases from a real specification without parameters "
+            "(%d of the %d retained cases; %d more come from a specification WITH parameters: C08_uniform_objects_params, "
+            "pdescribes evaluated by no run)" % (k, n_words, n_words, n_all, n_stats),
+            n_words == 0 or k / n_words >= MIN_COVERED,
+            "covered = the extracted run_c08d AND the harness decide, on the C08 classes and the C07 descriptors of the "
+            "same specification, `describes` (describesb, C08_describes_decided), the rank certificate and `closed` "
+            "(rankb / closedb); node_ok and the count recurrences remain hypotheses (evidence: check_hypotheses, the "
+            "oracle); minimum fraction %.2f" % MIN_COVERED)]
+    return cov + [big_sample_check(ctx.seed), gen_selftest.rejects(_BAD_SNIPPETS)] + gen_selftest.checks(
         ["product_reliance_profile", "product_valid_compositions", "product_min_sizes", "product_max_sizes"], ctx.seed, ID)
 
 
